@@ -68,9 +68,11 @@ CHECK = Check(
         "model's ghost trace, tied to the reported series by trace_tie (chained volumes V → V', Σ sub = Δt, "
         "outflow·Δt = Σ(avgOutflow·sub + excess)) and summarised on the reported outflow by reported_outflow_between / "
         "reported_outflow_eq_demand",
-        "per-cell table lengths: NO theorem — covered by family W only (several cells with tables of different length in one "
-        "vectorised Run, each compared bit for bit with its single-cell run and with the wrapper model); the theorems are about "
-        "one cell's tables after slicing",
+        "per-cell table lengths: no C13-specific theorem; the C13 theorems are about one cell's tables after slicing. That the "
+        "wrapper hands each cell ITS OWN rows (r < the cell's own value of the dimension parameter, column i % nSets) is proved "
+        "for every well-formed spec - Storage's included - under C04 (OW.Props.C04NdTables: cellParams_tables, "
+        "param_decoding_tables, runNd_refines_tables) and exercised here by family W (several cells with tables of different "
+        "length in one vectorised Run, each compared bit for bit with its single-cell run and with the wrapper model)",
         "no-panic (run_ok_of): the table-level instances cover draw-down by RELEASE (run_ok_of_release_limited) and filling "
         "(run_ok_of_net_gain); draw-down by net EVAPORATION from a positive area has no table-level instance (the area is evaluated "
         "at the mid-volume of the trial, a bound needs monotone area tables = C18 interpolation facts) — only the abstract Safe",
